@@ -201,6 +201,23 @@ def check_item(item):
                             bad.append(("pexp:raises", f"grid {grid}: {type(e).__name__}: {str(e)[:100]}"))
         if len(bad) > 6:
             break
+    # the same genealogy with every time shifted: the youngest sample is not at time 0 (heights handed
+    # to the distributions directly, or a model built from times / events, need not start at 0)
+    samp0, coal0, times0 = samp, coal, times
+    for off in (0.75,):
+        samp, coal = [t + off for t in samp0], [t + off for t in coal0]
+        th1 = thetas_for("c", 1, "distinct")
+        run_one("constant", th1, None, None, perms[:1], f"constant, times + {off}")
+        for g in (0.3, -0.3):
+            run_one("exponential", th1, None, g, perms[:1], f"exponential g={g}, times + {off}")
+        run_one("skyride", thetas_for("s", n - 1, "distinct"), None, None, perms[:1], f"skyride, times + {off}")
+        for placement in itertools.combinations_with_replacement(range(nuniq), 1):
+            for shift_grid in (False, True):
+                grid = [g_ + (off if shift_grid else 0.0) for g_ in grid_points(times0, placement)]
+                for model in ("skygrid", "linear"):
+                    run_one(model, thetas_for("g", 2, "distinct"), grid, None, perms[:1],
+                            f"{model} grid {grid}, times + {off}")
+    samp, coal = samp0, coal0
     return bad, nev
 
 
@@ -242,6 +259,28 @@ def check_model_call(item):
             nev += 1
             if not abs(v - ref) <= RTOL * max(1.0, abs(ref)):
                 bad.append((f"{model}:model_call", f"model() = {v!r} vs Kingman {ref!r} (samp {samp} coal {coal})"))
+            # history on the same model object: every parameter replaced in turn, evaluated after each
+            g_cur, grid_cur, th_cur = (0.3 if model == "exponential" else None), grid, th
+            for step in ("aux", "theta", "aux2"):
+                if step == "theta":
+                    th_cur = [x * 1.37 for x in th_cur]
+                    dic["theta"].tensor = torch.tensor(th_cur)
+                elif model == "exponential":
+                    g_cur = -0.2 if step == "aux" else 0.45
+                    dic["growth"].tensor = torch.tensor([g_cur])
+                elif model in ("skygrid", "linear"):
+                    grid_cur = [x * (1.6 if step == "aux" else 0.55) for x in grid]
+                    dic["coal"].grid.tensor = torch.tensor(grid_cur)
+                else:
+                    continue
+                v = float(dic["coal"]())
+                ref = reference(model, samp, coal, th_cur, grid_cur if model in ("skygrid", "linear") else None,
+                                g_cur)
+                nev += 1
+                if not abs(v - ref) <= RTOL * max(1.0, abs(ref)):
+                    bad.append((f"{model}:model_history", f"after replacing {step}: model() = {v!r} vs Kingman "
+                                                          f"{ref!r} (theta {th_cur} growth {g_cur} grid {grid_cur})"))
+                    break
         except Exception as e:
             bad.append((f"{model}:model_raises", f"{type(e).__name__}: {str(e)[:140]}"))
     return bad, nev
